@@ -93,7 +93,9 @@ func (e *entry) doInit(publicKey PublicKey, expandedPublicKey *ExpandedPublicKey
 	// This is nonsensical (as in, cofactorless batch-verification
 	// is flat out incorrect), but the API allows for requesting it.
 	if e.wantCofactorless = vOpts.CofactorlessVerify; e.wantCofactorless {
-		e.signature = sig
+		// Copy the signature, as the caller is free to reuse the
+		// backing buffer once Add returns.
+		e.signature = append([]byte{}, sig...)
 	}
 
 	// Validate A, Deserialize R and S.
